@@ -162,7 +162,7 @@ class RunTest:
             self.result.addSkip(self.case, reason=reason)
             return
 
-        if self.exception_caught == self._run_user(self.case._run_setup, self.result):
+        if self.exception_caught is self._run_user(self.case._run_setup, self.result):
             # Don't run the test method if we failed getting here.
             self._run_cleanups(self.result)
             if getattr(self.case, "force_failure", None):
@@ -174,19 +174,19 @@ class RunTest:
         # exception we'll have failed.
         failed = False
         try:
-            if self.exception_caught == self._run_user(
+            if self.exception_caught is self._run_user(
                 self.case._run_test_method, self.result
             ):
                 failed = True
         finally:
             try:
-                if self.exception_caught == self._run_user(
+                if self.exception_caught is self._run_user(
                     self.case._run_teardown, self.result
                 ):
                     failed = True
             finally:
                 try:
-                    if self.exception_caught == self._run_user(
+                    if self.exception_caught is self._run_user(
                         self._run_cleanups, self.result
                     ):
                         failed = True
@@ -211,7 +211,7 @@ class RunTest:
         while self.case._cleanups:
             function, arguments, keywordArguments = self.case._cleanups.pop()
             got_exception = self._run_user(function, *arguments, **keywordArguments)
-            if got_exception == self.exception_caught:
+            if got_exception is self.exception_caught:
                 failing = True
         if failing:
             return self.exception_caught
